@@ -202,6 +202,7 @@ class DeckMemoryManager(MemoryElement):
         self._read_complete_cb = None
         self._read_failed_cb = None
         self._read_base_address = 0
+        self._write_base_address = 0
 
         self._write_complete_cb = None
         self._write_failed_cb = None
@@ -292,6 +293,7 @@ class DeckMemoryManager(MemoryElement):
         if self._write_complete_cb is not None:
             raise Exception('Write operation ongoing')
 
+        self._write_base_address = base_address
         self._write_complete_cb = complete_cb
         self._write_failed_cb = failed_cb
 
@@ -304,7 +306,7 @@ class DeckMemoryManager(MemoryElement):
 
             tmp_cb = self._write_complete_cb
             self._clear_write_cb()
-            tmp_cb(addr - self._read_base_address)
+            tmp_cb(addr - self._write_base_address)
 
     def _write_failed(self, mem, addr):
         if mem.id == self.id:
@@ -312,7 +314,7 @@ class DeckMemoryManager(MemoryElement):
 
             tmp_cb = self._write_failed_cb
             self._clear_write_cb()
-            tmp_cb(addr - self._read_base_address)
+            tmp_cb(addr - self._write_base_address)
 
     def _clear_write_cb(self):
         self._write_complete_cb = None
